@@ -319,6 +319,8 @@ class Runner:
             tol = rtol * max(scale, 1e-30)
             if name.startswith("root") and g["kind"] == "shampoo":
                 tol = 1e-6 * max(scale, 1e-30)   # conditioning of the inverse root; the factor itself is compared tightly
+            if g.get("method") in ("newton", "higher") and (name.startswith("root") or name in ("param", "mom")):
+                tol = 1e-4 * max(scale, 1e-30)   # iterative solvers stop at their own tolerance (1e-6 / 1e-8 residual)
             if not (err <= tol) or not math.isfinite(err):
                 out.append((f"g{gi+1}.value.b{b}.{name}", f"max|.|={scale:.6g}", f"abs err {err:.3e} > {tol:.3e}"))
         return out
